@@ -128,6 +128,108 @@ def build():
                         "result == True and node not in self._in_node_map and "
                         "forall(e__Edge, True, has(self, e__Edge) == (has(old(self), e__Edge) and e__Edge.out_node != node)))"),
     defs=view)))
+  # ---- invalidate_deps: the worklist that marks everything depending on a change -----------------
+  Rows = SetOf(Int)
+  RMap = MapOf(Node, Rows)
+  Work = Seq(Tup(Node, Rows))
+  def affp(ip, rel, r, r2):
+    """affp(rel, r, r2): row r2 of the dependent column is affected by a change of row r (the
+    relation's row mapping, uninterpreted)."""
+    f = ip.uf("affected", [opaque_sort("Relation"), z3.IntSort(), z3.IntSort()], z3.BoolSort())
+    return ip.wrap_bool(f(Rel.leaves(rel)[0], ip.int_term(r), ip.int_term(r2)))
+  def get_affected_rows(ip, rel, rows):
+    """Assumed contract of Relation.get_affected_rows(set of rows): the union of the rows affected
+    by each member (proved for ReferenceRelation in C10_relation.py; true of IdentityRelation and
+    preserved by ComposedRelation).  Never ALL_ROWS for a set argument."""
+    f = ip.uf("affected", [opaque_sort("Relation"), z3.IntSort(), z3.IntSort()], z3.BoolSort())
+    res = ip.ctx.fresh(Rows, "affected_rows")
+    r, r2 = z3.Int("ga?r%d" % ip._qid()), z3.Int("ga?q%d" % ip._qid())
+    ip.ctx.assume(z3.ForAll([r2], z3.Select(res.arr, r2) ==
+                            z3.Exists([r], z3.And(z3.Select(rows.arr, r), f(rel.t, r, r2)))))
+    ip.ctx.assumed_contracts.add("Relation.get_affected_rows(rows) = union over the rows of the "
+                                 "rows each one affects (pointwise row mapping)")
+    return res
+  idefs = dict(view,
+    affp=affp,
+    inR="lambda R, n, r: n in R and r in R[n]",
+    pend="lambda W, n, r2: exists(j, 0 <= j < len(W), W[j][0] == n and r2 in W[j][1])",
+    closed_upto="lambda R, W: forall(e__Edge, r, r2, has(self, e__Edge) and inR(R, e__Edge.in_node, r) "
+                "and affp(e__Edge.relation, r, r2), inR(R, e__Edge.out_node, r2) or pend(W, e__Edge.out_node, r2))",
+    nothing=lambda ip: Work.build(Work.leaves([])))
+  c = _setup(Contract(
+    prefix="C05.graph.invalidate_deps", target="depend:Graph.invalidate_deps", file="sandbox/grist/depend.py",
+    params=dict(self=G(), dirty_node=Node, dirty_rows=Rows, recompute_map=RMap, include_self=True),
+    requires=dict(idx_in="idx_in(self)", buckets="buckets(self)",
+                  closed_before="forall(e__Edge, r, r2, has(self, e__Edge) and inR(recompute_map, e__Edge.in_node, r) "
+                                "and affp(e__Edge.relation, r, r2), inR(recompute_map, e__Edge.out_node, r2))"),
+    loops={
+      0: LoopSpec("C05.graph.invalidate_deps.worklist",
+                  locals=dict(to_invalidate=Work, recompute_map=RMap, dirty_node=Node, dirty_rows=Rows,
+                              out_rows=Rows, affected_rows=Rows, edge=Edge),
+                  invariants={
+                    "closed_up_to_pending": "closed_upto(recompute_map, to_invalidate)",
+                    "only_grows": "forall(n__Node, r, inR(old(recompute_map), n__Node, r), inR(recompute_map, n__Node, r))",
+                    "start_rows_marked_or_pending": "forall(r, r in old(dirty_rows), inR(recompute_map, old(dirty_node), r) "
+                                                    "or pend(to_invalidate, old(dirty_node), r))",
+                    "include_self": "include_self == True",
+                  }),
+      1: LoopSpec("C05.graph.invalidate_deps.edges", index="idx",
+                  locals=dict(to_invalidate=Work, affected_rows=Rows, edge=Edge),
+                  ghost=dict(W0=(Work, "to_invalidate")),
+                  invariants={
+                    "older_items_kept": "len(to_invalidate) == len(W0) + idx and "
+                                        "forall(j, 0 <= j < len(W0), to_invalidate[j] == W0[j])",
+                    "one_item_per_dependent": "forall(i, 0 <= i < idx, to_invalidate[len(W0) + i][0] == __iterated__[i].out_node "
+                                              "and forall(r2, True, (r2 in to_invalidate[len(W0) + i][1]) == "
+                                              "exists(r, r in dirty_rows, affp(__iterated__[i].relation, r, r2))))",
+                  }),
+    },
+    ensures={
+      "closed": "forall(e__Edge, r, r2, has(self, e__Edge) and inR(recompute_map, e__Edge.in_node, r) "
+                "and affp(e__Edge.relation, r, r2), inR(recompute_map, e__Edge.out_node, r2))",
+      "only_grows": "forall(n__Node, r, inR(old(recompute_map), n__Node, r), inR(recompute_map, n__Node, r))",
+      "dirty_rows_marked": "forall(r, r in old(dirty_rows), inR(recompute_map, old(dirty_node), r))",
+    },
+    defs=idefs,
+    notes="specific rows only (dirty_rows and every recompute_map entry are sets of rows, not "
+          "ALL_ROWS); partial correctness (termination of the worklist is not proved); the graph "
+          "is not modified on these paths"))
+  c.stubs["SortedSet"] = Model("SortedSet(): empty set of rows", lambda ip: Rows.build(Rows.leaves(set())))
+  c.hooks[("method", "Relation", "get_affected_rows")] = get_affected_rows
+  out.append(c)
+  # include_self=False: the changed node holds raw data - only its dependents are marked
+  dep_marked = ("forall(e__Edge, r, r2, has(self, e__Edge) and e__Edge.in_node == old(dirty_node) and "
+                "r in old(dirty_rows) and affp(e__Edge.relation, r, r2), %s)")
+  c2 = _setup(Contract(
+    prefix="C05.graph.invalidate_deps_of_data", target="depend:Graph.invalidate_deps", file="sandbox/grist/depend.py",
+    params=dict(self=G(), dirty_node=Node, dirty_rows=Rows, recompute_map=RMap, include_self=False),
+    requires=dict(c.requires),
+    loops={
+      0: LoopSpec("C05.graph.invalidate_deps_of_data.worklist",
+                  locals=dict(to_invalidate=Work, recompute_map=RMap, dirty_node=Node, dirty_rows=Rows,
+                              out_rows=Rows, affected_rows=Rows, edge=Edge, include_self=Bool),
+                  invariants={
+                    "closed_up_to_pending": "closed_upto(recompute_map, to_invalidate)",
+                    "only_grows": "forall(n__Node, r, inR(old(recompute_map), n__Node, r), inR(recompute_map, n__Node, r))",
+                    "first_item_or_dependents_pending":
+                      "(not include_self and len(to_invalidate) == 1 and to_invalidate[0][0] == old(dirty_node) and "
+                      "forall(r, True, (r in to_invalidate[0][1]) == (r in old(dirty_rows))) and "
+                      "closed_upto(recompute_map, nothing())) or "
+                      "(include_self and " + dep_marked % "inR(recompute_map, e__Edge.out_node, r2) or pend(to_invalidate, e__Edge.out_node, r2)" + ")",
+                  }),
+      1: LoopSpec("C05.graph.invalidate_deps_of_data.edges", index="idx",
+                  locals=dict(to_invalidate=Work, affected_rows=Rows, edge=Edge),
+                  ghost=dict(W0=(Work, "to_invalidate")),
+                  invariants=dict(c.loops[1].invariants)),
+    },
+    ensures={
+      "closed": c.ensures["closed"], "only_grows": c.ensures["only_grows"],
+      "dependents_of_the_dirty_rows_marked": dep_marked % "inR(recompute_map, e__Edge.out_node, r2)",
+    },
+    defs=idefs, notes=c.notes))
+  c2.stubs["SortedSet"] = c.stubs["SortedSet"]
+  c2.hooks[("method", "Relation", "get_affected_rows")] = get_affected_rows
+  out.append(c2)
   return out
 
 
